@@ -34,6 +34,9 @@ CHECKS = {
  "C06": dict(cat="exploration", tech="exhaustive enumeration of signer/signature lists against a label-based reference predicate, call-by-call comparison with the exported validators; metamorphic single-field changes; panic guard",
    text="For both flavours and all keyper sets n<=3 (thorough n<=4) with every threshold: every signer-index list of length 0..n+1 over in-range/out-of-range values x signature lists (genuine, uniform, <=2 deviations) with entries by the listed signer / another member / an outsider / over data differing in one field / garbage; the validator must accept exactly when the label-based rule holds, and every single-field change of an accepted message must be rejected.",
    note="Go toolchain; go-ethereum secp256k1; the reference predicate in checks/c06 (labels, ~20 lines)", ref="§3 C06"),
+ "C20": dict(cat="exploration", tech="multiset conservation oracle (recorded key generations == publications) over histories of the real polling step on the in-memory Postgres",
+   text="The real eonPubKeyHandler polling step runs against pgmem; 0..4 key generations per tick are recorded through the repository's own queries (several keyper sets, restarts, any order, all scan orders), in broadcast (signature verified) and callback mode; after the last tick the multiset of publications must equal the multiset of recorded key generations and nothing may be left pending.",
+   note="Go toolchain; pgmem (in-memory PostgreSQL substitute, repository DB tests pass against it); the keyper verif hook VerifNewEonPubKeyHandler", ref="§3 C20"),
 }
 
 NOT_APPLICABLE = {
